@@ -33,6 +33,7 @@ type adminCluster struct {
 	finishAt   int  // the n-th poll answers FINISHED (0: never, always RUNNING)
 	polls      int32
 	onPoll     func()
+	script     []string // answers to the polls, in order: r f x n (then RUNNING)
 	mu         sync.Mutex
 	pollCtxs   []context.Context
 }
@@ -82,7 +83,20 @@ func (c *adminConn) QueueRPC(call hrpc.Call) {
 			if c.a.finishAt > 0 && n >= c.a.finishAt {
 				st = pb.GetProcedureResultResponse_FINISHED
 			}
-			msg = &pb.GetProcedureResultResponse{State: &st}
+			resp := &pb.GetProcedureResultResponse{State: &st}
+			if n-1 < len(c.a.script) {
+				switch c.a.script[n-1] {
+				case "f":
+					st = pb.GetProcedureResultResponse_FINISHED
+				case "x":
+					st = pb.GetProcedureResultResponse_FINISHED
+					resp.Exception = &pb.ForeignExceptionMessage{GenericException: &pb.GenericExceptionMessage{
+						ClassName: proto.String("org.apache.hadoop.hbase.TableExistsException"), Message: proto.String("t")}}
+				case "n":
+					st = pb.GetProcedureResultResponse_NOT_FOUND
+				}
+			}
+			msg = resp
 		default:
 			call.ResultChan() <- hrpc.RPCResult{Error: fmt.Errorf("adminConn: unexpected call %s", call.Name())}
 			return
@@ -441,4 +455,55 @@ func adminPollRateScenario() string {
 		atts = []string{"-"}
 	}
 	return fmt.Sprintf("c17 rate admin-poll %s", strings.Join(atts, ";"))
+}
+
+// adminScriptCase (C17): one admin call against a master that answers the procedure-state polls by
+// a script (RUNNING k times, a final answer, more answers behind it); the waits are virtual
+// (sleep override: +1 ns growth, durations recorded).
+func adminScriptCase(rng *RNG) string {
+	a := &adminCluster{}
+	k := rng.Intn(7)
+	for i := 0; i < k; i++ {
+		a.script = append(a.script, "r")
+	}
+	a.script = append(a.script, []string{"f", "f", "x", "n"}[rng.Intn(4)])
+	for i, n := 0, rng.Intn(3); i < n; i++ {
+		a.script = append(a.script, []string{"r", "f", "x", "n"}[rng.Intn(4)])
+	}
+	api := []string{"createtable", "deletetable", "enabletable", "disabletable"}[rng.Intn(4)]
+	backoffLog.Lock()
+	backoffLog.d = nil
+	backoffLog.Unlock()
+	setSleepOverride(fastBackoff)
+	defer setSleepOverride(nil)
+	wrap := func(real hrpc.RegionClient) hrpc.RegionClient { return &adminConn{a} }
+	v := gohbase.VerifNewClient(a, true, wrap, gohbase.Logger(discardLogger))
+	defer v.Client().Close()
+	ctx, cancel := context.WithTimeout(context.Background(), 5*time.Second)
+	defer cancel()
+	err := adminCall(v, api, ctx)
+	res := "ok"
+	switch {
+	case err == nil:
+	case strings.Contains(err.Error(), "procedure exception"):
+		res = "procexc"
+	case strings.Contains(err.Error(), "procedure not found"):
+		res = "notfound"
+	default:
+		res = "other:" + classOf(err)
+	}
+	backoffLog.Lock()
+	var ss []string
+	for _, d := range backoffLog.d {
+		if d == 0 {
+			continue // the establisher of the master connection: its first "wait" is none
+		}
+		ss = append(ss, fmt.Sprint(int64(d)))
+	}
+	backoffLog.Unlock()
+	sl := strings.Join(ss, ",")
+	if sl == "" {
+		sl = "-"
+	}
+	return fmt.Sprintf("c17 admin %s %s %s %d %s", api, strings.Join(a.script, ","), res, atomic.LoadInt32(&a.polls), sl)
 }
